@@ -224,6 +224,21 @@ def judge_net(case, ctx, prefix):
         if abs(z1 - z2) > refd['tol'] * 64 * max(abs(z1), sc['zmax']):
             ctx.violation(f'{prefix}/net/port-impedance', f'Z({a!r},{b!r}) = {z1!r} but {z2!r} after the transform', {'transform': T})
         ctx.count('impedance_pairs')
+    # port voltages (the Thevenin voltage of a node pair) are potential differences too: the same under the transform, and they
+    # prefer pairs bridged by a single element, where a reversed listing of that element must not matter
+    from CircuitCalculator.Network.NodalAnalysis.bias_point_analysis import open_circuit_voltage
+    bridged = [(b['n1'], b['n2']) for b in d1['branches'] if b['n1'] != b['n2']]
+    ctx.rng.shuffle(bridged)
+    for a, b in (bridged[:2] + [(y, x) for x, y in bridged[:1]] + prs[:1]):
+        u1 = call(open_circuit_voltage, outs[0][0], a, b)
+        u2 = call(open_circuit_voltage, outs[1][0], T['nodes'][a], T['nodes'][b])
+        ctx.count('port_voltage_pairs')
+        if raised(u1) or raised(u2):
+            if raised(u1) != raised(u2):
+                ctx.violation(f'{prefix}/net/port-voltage-raises-only-on-one-side', f'U({a!r},{b!r}): {u1!r} vs {u2!r}', {'transform': T})
+            continue
+        if abs(complex(u1) - complex(u2)) > tol * refd['s_phi']:
+            ctx.violation(f'{prefix}/net/port-voltage', f'open_circuit_voltage({a!r},{b!r}) = {complex(u1)!r} but {complex(u2)!r} after the transform', {'transform': T})
 
 
 def impedance_pairs_only(case, ctx, prefix):
